@@ -85,4 +85,343 @@ theorem slice_append_slice {α : Type} (xs : List α) {a b c : Nat} (hab : a ≤
       rw [h3, h4]
       split <;> simp
 
+/-! ### the relation between the two dispatchers -/
+
+section
+variable {γ : Type}
+
+/-- fields that are equal in the two runs at all times -/
+structure DEq (ds dw : Disp γ) : Prop where
+  flags : dw.flags = ds.flags
+  em : dw.emissionEnabled = ds.emissionEnabled
+  gffh : dw.gotFlagsFromHint = ds.gotFlagsFromHint
+  paux : dw.pendingAux = ds.pendingAux
+  enc : dw.encoding = ds.encoding
+  nenc : dw.nextEncoding = ds.nextEncoding
+
+/-- the open-text-node fields -/
+structure DPend (ds dw : Disp γ) : Prop where
+  ltt : dw.lastTextType = ds.lastTextType
+  tp : dw.textPending = ds.textPending
+  tps : dw.textPendingStart = ds.textPendingStart
+
+/-- tiling: the split run has emitted everything up to its `remaining_content_start`, the whole run is
+behind by the slack `inpW[rcs_w, rcs_s + δ)` -/
+structure DBytes (inpS inpW : Bytes) (δ : Nat) (ds dw : Disp γ) : Prop where
+  rcs_le : dw.rcs ≤ ds.rcs + δ
+  rcs_in : ds.rcs ≤ inpS.length
+  bytes : sinkBytes ds.sink = sinkBytes dw.sink ++
+    (if ds.emissionEnabled = true then LolHtml.slice inpW dw.rcs (ds.rcs + δ) else [])
+
+structure DK0 (E : γ → γ → Prop) (inpS inpW : Bytes) (δ : Nat) (ds dw : Disp γ) : Prop where
+  ctl : E ds.ctl dw.ctl
+  eq : DEq ds dw
+  pend : DPend ds dw
+  bytes : DBytes inpS inpW δ ds dw
+
+/-- text debt `d > 0` under the TEXT capture flag: the split dispatcher has received the `d` bytes before
+its `remaining_content_start` as a (non-last) text chunk -/
+structure DKt (ctl : Controller γ) (E : γ → γ → Prop) (inpS inpW : Bytes) (δ d : Nat) (ds dw : Disp γ) : Prop where
+  ctl : E ds.ctl (ctl.token dw.ctl (.text (LolHtml.slice inpW (ds.rcs + δ - d) (ds.rcs + δ)) ds.lastTextType false
+      ⟨ds.textPendingStart - d, ds.textPendingStart⟩)).1
+  eq : DEq ds dw
+  bytes : DBytes inpS inpW δ ds dw
+  rcs_d : dw.rcs + d ≤ ds.rcs + δ
+  tps_d : d ≤ ds.textPendingStart
+
+def DK (ctl : Controller γ) (E : γ → γ → Prop) (inpS inpW : Bytes) (δ : Nat) (d : Nat) (ds dw : Disp γ) : Prop :=
+  if d = 0 then DK0 E inpS inpW δ ds dw
+  else (ds.flags.text = false → DK0 E inpS inpW δ ds dw) ∧ (ds.flags.text = true → DKt ctl E inpS inpW δ d ds dw)
+
+/-- under the TEXT flag the dispatcher records where the text it has received ends -/
+def DLoc (ds : Disp γ) (pc LS : Nat) (tt : TextType) : Prop :=
+  ds.flags.text = true → ds.rcs = LS ∧ ds.textPendingStart = pc + LS ∧ ds.lastTextType = tt ∧ ds.textPending = true
+
+theorem DK_zero {ctl : Controller γ} {E : γ → γ → Prop} {inpS inpW : Bytes} {δ : Nat} {ds dw : Disp γ} :
+    DK ctl E inpS inpW δ 0 ds dw ↔ DK0 E inpS inpW δ ds dw := by
+  unfold DK; simp
+
+/-! ### `token_produced` -/
+
+variable {ctl : Controller γ}
+
+theorem noteNextEncoding_fields (d : Disp γ) (o : Option Nat) :
+    (d.noteNextEncoding o).ctl = d.ctl ∧ (d.noteNextEncoding o).sink = d.sink ∧ (d.noteNextEncoding o).rcs = d.rcs ∧
+    (d.noteNextEncoding o).flags = d.flags ∧ (d.noteNextEncoding o).emissionEnabled = d.emissionEnabled ∧
+    (d.noteNextEncoding o).lastTextType = d.lastTextType ∧ (d.noteNextEncoding o).gotFlagsFromHint = d.gotFlagsFromHint ∧
+    (d.noteNextEncoding o).pendingAux = d.pendingAux ∧ (d.noteNextEncoding o).textPending = d.textPending ∧
+    (d.noteNextEncoding o).textPendingStart = d.textPendingStart ∧ (d.noteNextEncoding o).encoding = d.encoding := by
+  unfold Disp.noteNextEncoding
+  (repeat' split) <;> simp
+
+theorem pushChunks_fields (d : Disp γ) (cs : List Bytes) :
+    (d.pushChunks cs).ctl = d.ctl ∧ (d.pushChunks cs).rcs = d.rcs ∧
+    (d.pushChunks cs).flags = d.flags ∧ (d.pushChunks cs).emissionEnabled = d.emissionEnabled ∧
+    (d.pushChunks cs).lastTextType = d.lastTextType ∧ (d.pushChunks cs).gotFlagsFromHint = d.gotFlagsFromHint ∧
+    (d.pushChunks cs).pendingAux = d.pendingAux ∧ (d.pushChunks cs).textPending = d.textPending ∧
+    (d.pushChunks cs).textPendingStart = d.textPendingStart ∧ (d.pushChunks cs).encoding = d.encoding ∧
+    (d.pushChunks cs).nextEncoding = d.nextEncoding := by
+  unfold Disp.pushChunks
+  split <;> simp
+
+/-- everything `token_produced` does -/
+theorem tokenProduced_desc (d : Disp γ) (t : Token) :
+    (Disp.tokenProduced ctl d t).1.ctl = (ctl.token d.ctl t).1 ∧
+    (Disp.tokenProduced ctl d t).1.rcs = d.rcs ∧
+    (Disp.tokenProduced ctl d t).1.flags = d.flags ∧
+    (Disp.tokenProduced ctl d t).1.emissionEnabled = d.emissionEnabled ∧
+    (Disp.tokenProduced ctl d t).1.lastTextType = d.lastTextType ∧
+    (Disp.tokenProduced ctl d t).1.gotFlagsFromHint = d.gotFlagsFromHint ∧
+    (Disp.tokenProduced ctl d t).1.pendingAux = d.pendingAux ∧
+    (Disp.tokenProduced ctl d t).1.textPending = d.textPending ∧
+    (Disp.tokenProduced ctl d t).1.textPendingStart = d.textPendingStart ∧
+    (Disp.tokenProduced ctl d t).1.encoding = d.encoding ∧
+    (Disp.tokenProduced ctl d t).1.nextEncoding =
+      (match (ctl.token d.ctl t).2.nextEncoding with
+        | some e => if d.nextEncoding.isNone then some e else d.nextEncoding
+        | none => d.nextEncoding) ∧
+    sinkBytes (Disp.tokenProduced ctl d t).1.sink = sinkBytes d.sink ++
+      (if d.emissionEnabled = true then (ctl.token d.ctl t).2.chunks.flatten else []) ∧
+    (Disp.tokenProduced ctl d t).2 = (match (ctl.token d.ctl t).2.err with | some e => .error e | none => .ok ()) := by
+  unfold Disp.tokenProduced
+  obtain ⟨n1, n2, n3, n4, n5, n6, n7, n8, n9, n10, n11⟩ :=
+    noteNextEncoding_fields { d with ctl := (ctl.token d.ctl t).1 } (ctl.token d.ctl t).2.nextEncoding
+  obtain ⟨p1, p2, p3, p4, p5, p6, p7, p8, p9, p10, p11⟩ :=
+    pushChunks_fields (({ d with ctl := (ctl.token d.ctl t).1 }).noteNextEncoding (ctl.token d.ctl t).2.nextEncoding)
+      (ctl.token d.ctl t).2.chunks
+  obtain ⟨_, _, q3⟩ := pushChunks_spec (({ d with ctl := (ctl.token d.ctl t).1 }).noteNextEncoding (ctl.token d.ctl t).2.nextEncoding)
+      (ctl.token d.ctl t).2.chunks
+  have hne : (({ d with ctl := (ctl.token d.ctl t).1 }).noteNextEncoding (ctl.token d.ctl t).2.nextEncoding).nextEncoding =
+      (match (ctl.token d.ctl t).2.nextEncoding with
+        | some e => if d.nextEncoding.isNone then some e else d.nextEncoding
+        | none => d.nextEncoding) := by
+    unfold Disp.noteNextEncoding
+    cases (ctl.token d.ctl t).2.nextEncoding with
+    | none => rfl
+    | some e => simp only; split <;> simp_all
+  dsimp only
+  refine ⟨?_, ?_, ?_, ?_, ?_, ?_, ?_, ?_, ?_, ?_, ?_, ?_, ?_⟩
+  all_goals first
+    | (split <;> simp_all; done)
+    | skip
+  all_goals (split <;> simp_all)
+
+/-- the same (non-text) token handed to the controller in both runs -/
+theorem tok_sim {E : γ → γ → Prop} (hcl : TextBlind ctl E) {ds dw : Disp γ} (hE : E ds.ctl dw.ctl) (heq : DEq ds dw)
+    (hp : DPend ds dw) (t t' : Token) (ht : ∀ g, ctl.token g t = ctl.token g t') (hnt : tokIsText t' = false) :
+    (Disp.tokenProduced ctl dw t').2 = (Disp.tokenProduced ctl ds t).2 ∧
+    E (Disp.tokenProduced ctl ds t).1.ctl (Disp.tokenProduced ctl dw t').1.ctl ∧
+    DEq (Disp.tokenProduced ctl ds t).1 (Disp.tokenProduced ctl dw t').1 ∧
+    DPend (Disp.tokenProduced ctl ds t).1 (Disp.tokenProduced ctl dw t').1 ∧
+    (Disp.tokenProduced ctl ds t).1.rcs = ds.rcs ∧ (Disp.tokenProduced ctl dw t').1.rcs = dw.rcs ∧
+    ∃ X, sinkBytes (Disp.tokenProduced ctl ds t).1.sink = sinkBytes ds.sink ++ (if ds.emissionEnabled = true then X else []) ∧
+      sinkBytes (Disp.tokenProduced ctl dw t').1.sink = sinkBytes dw.sink ++ (if ds.emissionEnabled = true then X else []) := by
+  obtain ⟨a1, a2, a3, a4, a5, a6, a7, a8, a9, a10, a11, a12, a13⟩ := tokenProduced_desc (ctl := ctl) ds t
+  obtain ⟨b1, b2, b3, b4, b5, b6, b7, b8, b9, b10, b11, b12, b13⟩ := tokenProduced_desc (ctl := ctl) dw t'
+  rw [ht ds.ctl] at a1 a11 a12 a13
+  obtain ⟨c1, c2, c3, c4⟩ := hcl.tok ds.ctl dw.ctl t' hE hnt
+  refine ⟨by rw [a13, b13, c2], by rw [a1, b1]; exact c4, ⟨by rw [a3, b3]; exact heq.flags, by rw [a4, b4]; exact heq.em,
+    by rw [a6, b6]; exact heq.gffh, by rw [a7, b7]; exact heq.paux, by rw [a10, b10]; exact heq.enc,
+    by rw [a11, b11, c3, heq.nenc]⟩, ⟨by rw [a5, b5]; exact hp.ltt, by rw [a8, b8]; exact hp.tp, by rw [a9, b9]; exact hp.tps⟩,
+    a2, b2, (ctl.token ds.ctl t').2.chunks.flatten, a12, by rw [b12, heq.em, c1]⟩
+
+theorem DBytes.append {inpS inpW : Bytes} {δ : Nat} {ds dw ds' dw' : Disp γ} (h : DBytes inpS inpW δ ds dw) (X : Bytes)
+    (hs : sinkBytes ds'.sink = sinkBytes ds.sink ++ (if ds.emissionEnabled = true then X else []))
+    (hw : sinkBytes dw'.sink = sinkBytes dw.sink ++ (if ds.emissionEnabled = true then X else []))
+    (hrs : ds'.rcs = ds.rcs) (hrw : dw'.rcs = dw.rcs) (hem : ds'.emissionEnabled = ds.emissionEnabled)
+    (hx : X = [] ∨ dw.rcs = ds.rcs + δ) : DBytes inpS inpW δ ds' dw' := by
+  refine ⟨by rw [hrs, hrw]; exact h.rcs_le, by rw [hrs]; exact h.rcs_in, ?_⟩
+  rw [hs, hw, hrs, hrw, hem, h.bytes]
+  rcases hx with hx | hx
+  · subst hx
+    cases ds.emissionEnabled <;> simp
+  · have : LolHtml.slice inpW dw.rcs (ds.rcs + δ) = [] := by
+      rw [hx]; unfold LolHtml.slice; simp
+    rw [this]
+    cases ds.emissionEnabled <;> simp
+
+/-- `flush_pending_captured_text` in both runs -/
+theorem flushPendingText_sim {E : γ → γ → Prop} {inpS inpW : Bytes} {δ : Nat} (hcl : TextBlind ctl E) {ds dw : Disp γ}
+    (h : DK0 E inpS inpW δ ds dw) :
+    (dw.flushPendingText ctl).2 = .ok () ∧ (ds.flushPendingText ctl).2 = .ok () ∧
+    DK0 E inpS inpW δ (ds.flushPendingText ctl).1 (dw.flushPendingText ctl).1 ∧
+    (ds.flushPendingText ctl).1.rcs = ds.rcs ∧ (dw.flushPendingText ctl).1.rcs = dw.rcs := by
+  unfold Disp.flushPendingText
+  rw [h.pend.tp]
+  cases htp : ds.textPending with
+  | false => exact ⟨rfl, rfl, h, rfl, rfl⟩
+  | true =>
+    simp only [if_true]
+    have htok : (Token.text [] dw.lastTextType true ⟨dw.textPendingStart, dw.textPendingStart⟩)
+        = Token.text [] ds.lastTextType true ⟨ds.textPendingStart, ds.textPendingStart⟩ := by
+      rw [h.pend.ltt, h.pend.tps]
+    rw [htok]
+    obtain ⟨a1, a2, a3, a4, a5, a6, a7, a8, a9, a10, a11, a12, a13⟩ := tokenProduced_desc (ctl := ctl) { ds with textPending := false }
+      (.text [] ds.lastTextType true ⟨ds.textPendingStart, ds.textPendingStart⟩)
+    obtain ⟨b1, b2, b3, b4, b5, b6, b7, b8, b9, b10, b11, b12, b13⟩ := tokenProduced_desc (ctl := ctl) { dw with textPending := false }
+      (.text [] ds.lastTextType true ⟨ds.textPendingStart, ds.textPendingStart⟩)
+    obtain ⟨c1, c2, c3⟩ := hcl.text_ok ds.ctl [] ds.lastTextType true ⟨ds.textPendingStart, ds.textPendingStart⟩
+    obtain ⟨e1, e2, e3⟩ := hcl.text_ok dw.ctl [] ds.lastTextType true ⟨ds.textPendingStart, ds.textPendingStart⟩
+    simp only at a1 a11 a12 a13 b1 b11 b12 b13
+    rw [c1] at a13; rw [e1] at b13
+    rw [c2] at a11; rw [e2] at b11
+    rw [c3] at a12; rw [e3] at b12
+    refine ⟨b13, a13, ⟨by rw [a1, b1]; exact hcl.text_cong _ _ _ _ _ _ h.ctl, ⟨by rw [a3, b3]; exact h.eq.flags, by rw [a4, b4]; exact h.eq.em,
+      by rw [a6, b6]; exact h.eq.gffh, by rw [a7, b7]; exact h.eq.paux, by rw [a10, b10]; exact h.eq.enc,
+      by rw [a11, b11]; exact h.eq.nenc⟩, ⟨by rw [a5, b5]; exact h.pend.ltt, by rw [a8, b8], by rw [a9, b9]; exact h.pend.tps⟩, ?_⟩, a2, b2⟩
+    refine DBytes.append (ds := { ds with textPending := false }) (dw := { dw with textPending := false })
+      ⟨h.bytes.rcs_le, h.bytes.rcs_in, h.bytes.bytes⟩ [] ?_ ?_ a2 b2 a4 (Or.inl rfl)
+    · rw [a12]
+    · rw [b12]; simp
+
+/-- `d'` differs from `d` at most in the sink log and `remaining_content_start` -/
+structure DSame (d d' : Disp γ) : Prop where
+  ctl : d'.ctl = d.ctl
+  flags : d'.flags = d.flags
+  em : d'.emissionEnabled = d.emissionEnabled
+  ltt : d'.lastTextType = d.lastTextType
+  gffh : d'.gotFlagsFromHint = d.gotFlagsFromHint
+  paux : d'.pendingAux = d.pendingAux
+  tp : d'.textPending = d.textPending
+  tps : d'.textPendingStart = d.textPendingStart
+  enc : d'.encoding = d.encoding
+  nenc : d'.nextEncoding = d.nextEncoding
+
+theorem DSame.refl (d : Disp γ) : DSame d d := ⟨rfl, rfl, rfl, rfl, rfl, rfl, rfl, rfl, rfl, rfl⟩
+
+theorem DK0.of_same {E : γ → γ → Prop} {inpS inpW : Bytes} {δ : Nat} {ds dw ds' dw' : Disp γ}
+    (h : DK0 E inpS inpW δ ds dw) (hs : DSame ds ds') (hw : DSame dw dw') (hb : DBytes inpS inpW δ ds' dw') :
+    DK0 E inpS inpW δ ds' dw' :=
+  ⟨by rw [hs.ctl, hw.ctl]; exact h.ctl,
+   ⟨by rw [hs.flags, hw.flags]; exact h.eq.flags, by rw [hs.em, hw.em]; exact h.eq.em, by rw [hs.gffh, hw.gffh]; exact h.eq.gffh,
+    by rw [hs.paux, hw.paux]; exact h.eq.paux, by rw [hs.enc, hw.enc]; exact h.eq.enc, by rw [hs.nenc, hw.nenc]; exact h.eq.nenc⟩,
+   ⟨by rw [hs.ltt, hw.ltt]; exact h.pend.ltt, by rw [hs.tp, hw.tp]; exact h.pend.tp, by rw [hs.tps, hw.tps]; exact h.pend.tps⟩, hb⟩
+
+/-- `emit_chunk_before_lexeme` in both runs: afterwards the slack is empty -/
+theorem emitChunkBefore_sim {inpS inpW : Bytes} {δ : Nat} (F : Frame inpS inpW δ) {ds dw ds' : Disp γ}
+    (hb : DBytes inpS inpW δ ds dw) (hem : dw.emissionEnabled = ds.emissionEnabled) (raw : Range)
+    (he : ds.emitChunkBefore inpS raw = .ok ds') :
+    ∃ dw', dw.emitChunkBefore inpW (shR δ raw) = .ok dw' ∧ DSame ds ds' ∧ DSame dw dw' ∧
+      ds'.rcs = raw.start ∧ dw'.rcs = raw.start + δ ∧ raw.start ≤ inpS.length ∧ ds.rcs ≤ raw.start ∧
+      sinkBytes ds'.sink = sinkBytes dw'.sink := by
+  unfold Disp.emitChunkBefore at he ⊢
+  cases hcs : checkedSlice inpS ⟨ds.rcs, raw.start⟩ with
+  | none => rw [hcs] at he; cases he
+  | some chunk =>
+    rw [hcs] at he
+    simp only [Except.ok.injEq] at he
+    obtain ⟨h1, h2, h3⟩ := checkedSlice_some hcs
+    simp only at h1 h2
+    have hl := F.len
+    have hcw : checkedSlice inpW ⟨dw.rcs, (shR δ raw).start⟩ = some (LolHtml.slice inpW dw.rcs (raw.start + δ)) := by
+      unfold checkedSlice
+      have := hb.rcs_le
+      rw [if_pos (by simp only [shR]; omega)]
+      rfl
+    rw [hcw]
+    refine ⟨_, rfl, ?_, ?_, by rw [← he], rfl, h2, h1, ?_⟩
+    · rw [← he]
+      split <;> exact ⟨rfl, rfl, rfl, rfl, rfl, rfl, rfl, rfl, rfl, rfl⟩
+    · simp only
+      split <;> exact ⟨rfl, rfl, rfl, rfl, rfl, rfl, rfl, rfl, rfl, rfl⟩
+    · rw [← he]
+      have hslice : LolHtml.slice inpW dw.rcs (ds.rcs + δ) ++ chunk = LolHtml.slice inpW dw.rcs (raw.start + δ) := by
+        rw [h3, ← F.slice h2, slice_append_slice inpW hb.rcs_le (by omega)]
+      have hbytes := hb.bytes
+      simp only
+      rw [hem]
+      cases hE : ds.emissionEnabled with
+      | false =>
+        rw [hE] at hbytes
+        simpa using hbytes
+      | true =>
+        rw [hE] at hbytes
+        simp only [Bool.true_and, if_true] at hbytes ⊢
+        have e1 : sinkBytes (if (!chunk.isEmpty) = true then ds.push chunk else ds).sink = sinkBytes ds.sink ++ chunk := by
+          split
+          · simp [Disp.push]
+          · rename_i hne
+            have : chunk = [] := by
+              cases chunk with
+              | nil => rfl
+              | cons x xs => simp at hne
+            simp [this]
+        have e2 : sinkBytes (if (!(LolHtml.slice inpW dw.rcs (raw.start + δ)).isEmpty) = true then
+            dw.push (LolHtml.slice inpW dw.rcs (raw.start + δ)) else dw).sink =
+            sinkBytes dw.sink ++ LolHtml.slice inpW dw.rcs (raw.start + δ) := by
+          split
+          · simp [Disp.push]
+          · rename_i hne
+            have : LolHtml.slice inpW dw.rcs (raw.start + δ) = [] := by
+              cases hh : LolHtml.slice inpW dw.rcs (raw.start + δ) with
+              | nil => rfl
+              | cons x xs => rw [hh] at hne; simp at hne
+            simp [this]
+        rw [e1, e2, hbytes, List.append_assoc, hslice]
+
+theorem flushEncodingChange_desc (d : Disp γ) :
+    d.flushEncodingChange.ctl = d.ctl ∧ d.flushEncodingChange.rcs = d.rcs ∧ d.flushEncodingChange.flags = d.flags ∧
+    d.flushEncodingChange.emissionEnabled = d.emissionEnabled ∧ d.flushEncodingChange.lastTextType = d.lastTextType ∧
+    d.flushEncodingChange.gotFlagsFromHint = d.gotFlagsFromHint ∧ d.flushEncodingChange.pendingAux = d.pendingAux ∧
+    d.flushEncodingChange.textPending = d.textPending ∧ d.flushEncodingChange.textPendingStart = d.textPendingStart ∧
+    d.flushEncodingChange.nextEncoding = d.nextEncoding ∧
+    sinkBytes d.flushEncodingChange.sink = sinkBytes d.sink ∧
+    d.flushEncodingChange.encoding =
+      (match d.nextEncoding with | some e => if e != d.encoding then e else d.encoding | none => d.encoding) := by
+  unfold Disp.flushEncodingChange
+  cases hne : d.nextEncoding with
+  | none => simp [hne]
+  | some e =>
+    simp only
+    split <;> simp_all
+
+/-- the tail of `try_produce_token_from_lexeme` in both runs -/
+theorem emitToken_sim {E : γ → γ → Prop} {inpS inpW : Bytes} {δ : Nat} (F : Frame inpS inpW δ) (hcl : TextBlind ctl E)
+    {ds dw : Disp γ} (h : DK0 E inpS inpW δ ds dw) (raw : Range) (tok tok' : Token)
+    (ht : ∀ g, ctl.token g tok = ctl.token g tok') (hnt : tokIsText tok' = false)
+    (hraw : raw.start ≤ raw.end ∧ raw.end ≤ inpS.length) :
+    OpRel (DK0 E inpS inpW δ) (ds.emitToken ctl inpS raw tok) (dw.emitToken ctl inpW (shR δ raw) tok') := by
+  unfold Disp.emitToken
+  cases he : ds.emitChunkBefore inpS raw with
+  | error e =>
+    left
+    unfold Disp.emitChunkBefore at he
+    split at he
+    · simp only [Except.error.injEq] at he
+      subst he
+      simp [DRes.ofExcept, DRes.bind, EPanic]
+    · cases he
+  | ok ds1 =>
+    obtain ⟨dw1, hw1, s1, s2, r1, r2, r3, r4, hsb⟩ := emitChunkBefore_sim F h.bytes h.eq.em raw he
+    rw [hw1]
+    simp only [DRes.ofExcept, DRes.bind]
+    have hE1 : E ds1.ctl dw1.ctl := by rw [s1.ctl, s2.ctl]; exact h.ctl
+    have hk1 : DK0 E inpS inpW δ ds1 dw1 := h.of_same s1 s2 ⟨by rw [r1, r2]; exact Nat.le_refl _, by rw [r1]; exact r3, by
+      rw [hsb, r1, r2]
+      have : LolHtml.slice inpW (raw.start + δ) (raw.start + δ) = [] := by unfold LolHtml.slice; simp
+      rw [this]; cases ds1.emissionEnabled <;> simp⟩
+    obtain ⟨t1, t2, t3, t4, t5, t6, X, t7, t8⟩ := tok_sim hcl hE1 hk1.eq hk1.pend tok tok' ht hnt
+    right
+    rw [t1]
+    cases hres : (Disp.tokenProduced ctl ds1 tok).2 with
+    | error e => exact ⟨rfl, fun ⟨a, ha⟩ => by cases ha⟩
+    | ok u =>
+      simp only
+      refine ⟨trivial, fun _ => ?_⟩
+      obtain ⟨a1, a2, a3, a4, a5, a6, a7, a8, a9, a10, a11, a12⟩ :=
+        flushEncodingChange_desc { (Disp.tokenProduced ctl ds1 tok).1 with rcs := raw.end }
+      obtain ⟨b1, b2, b3, b4, b5, b6, b7, b8, b9, b10, b11, b12⟩ :=
+        flushEncodingChange_desc { (Disp.tokenProduced ctl dw1 tok').1 with rcs := (shR δ raw).end }
+      simp only at a1 a2 a3 a4 a5 a6 a7 a8 a9 a10 a11 a12 b1 b2 b3 b4 b5 b6 b7 b8 b9 b10 b11 b12
+      refine ⟨by rw [a1, b1]; exact t2, ⟨by rw [a3, b3]; exact t3.flags, by rw [a4, b4]; exact t3.em, by rw [a6, b6]; exact t3.gffh,
+        by rw [a7, b7]; exact t3.paux, by rw [a12, b12, t3.nenc, t3.enc], by rw [a10, b10]; exact t3.nenc⟩,
+        ⟨by rw [a5, b5]; exact t4.ltt, by rw [a8, b8]; exact t4.tp, by rw [a9, b9]; exact t4.tps⟩,
+        ⟨by rw [a2, b2]; simp [shR], by rw [a2]; exact hraw.2, ?_⟩⟩
+      rw [a11, b11, a2, b2, t7, t8, hsb]
+      have : LolHtml.slice inpW (shR δ raw).end (raw.end + δ) = [] := by unfold LolHtml.slice; simp [shR]
+      rw [this]
+      cases (Disp.tokenProduced ctl ds1 tok).1.flushEncodingChange.emissionEnabled <;> simp
+
+end
+
 end LolHtml.Model.Chunk
